@@ -89,6 +89,9 @@ type Config struct {
 	Trace bool `json:"trace,omitempty"`
 	// Labels gives canonical ranks for pointer map keys (see MapKeys).
 	Labels map[unsafe.Pointer]int `json:"-"`
+	// KeyFn gives a canonical sort key for a pointer map key that has no
+	// label (false: this kind of object has none).
+	KeyFn func(key, value interface{}) (string, bool) `json:"-"`
 	// StopAtRootReturn ends the run as soon as the workload function has
 	// returned, the way a process ends when main returns; whatever is still
 	// alive is reported as leaked. Without it the remaining goroutines run
